@@ -106,7 +106,10 @@ def build_check(prefix, sp: AggSpec, clauses=("rejects", "post", "dtype", "shape
                 for cond, val in cases:
                     goal = z3.Or(goal, z3.And(cond, same_term(v, val)))
                     covered.append(cond)
-                cx.oblige(f"{tag}.post", goal)
+                def _t(x):
+                    return x.term if isinstance(x, ATen) else x
+                cx.oblige(f"{tag}.post", goal, numeric={"code": v.term, "cases": [(c, val.term) for c, val in cases],
+                                                       "call": {"cls": sp.cls, "kwargs": {k: _t(x) for k, x in kwargs.items()}, "input": "J"}})
                 cx.oblige(f"{tag}.post.cases_cover", z3.Or(covered))
         H.explore(body)
     return Check(sp.name, [f"{sp.cls}.__init__"] + sp.funcs, fn, replay_keys=[prefix + "."], kind="P")
